@@ -69,9 +69,16 @@ def lake_build(targets):
 
 
 def build_harness():
+    """go build of the harness against REPO (a temporary modfile carries the `replace`, so VERIF_REPO is honoured)."""
     h = os.path.join(ROOT, "harness")
-    shutil.copyfile(os.path.join(REPO, "go.sum"), os.path.join(h, "go.sum"))
-    rc, out = sh(["go", "build", "-o", os.path.join(BIN, "tdxdriver"), "./cmd/tdxdriver"], cwd=h, env=GOENV, timeout=1200)
+    os.makedirs(CACHE, exist_ok=True)
+    mod = os.path.join(CACHE, "harness.mod")
+    shutil.copyfile(os.path.join(h, "go.mod"), mod)
+    shutil.copyfile(os.path.join(REPO, "go.sum"), os.path.join(CACHE, "harness.sum"))
+    rc, out = sh(["go", "mod", "edit", "-modfile=" + mod, "-replace", "github.com/google/go-tdx-guest=" + REPO], cwd=h, env=GOENV)
+    if rc != 0:
+        return False, out
+    rc, out = sh(["go", "build", "-modfile=" + mod, "-o", os.path.join(BIN, "tdxdriver"), "./cmd/tdxdriver"], cwd=h, env=GOENV, timeout=1200)
     return rc == 0, out
 
 
